@@ -8,8 +8,8 @@
 #include <unistd.h>
 
 #define MAXLINES 96
-static const char *EXTRA_SCEN[] = { "create", "to_png", "from_png", "from_jcf", "reinit", "header_overflow" };
-#define NEXTRA 6
+static const char *EXTRA_SCEN[] = {"create", "to_png", "from_png", "from_jcf", "reinit", "header_overflow", "large_blocks" };
+#define NEXTRA 7
 
 typedef struct {
   const char *text;
@@ -90,6 +90,14 @@ static void gen_scenario(uint64_t rseed, uint64_t idx, const char *tier, sbuf_t 
   } else if (!strcmp(op, "header_overflow")) { /* more than 1024 simultaneously live headers: the pool's 16 blocks are full, headers come from plain allocations */
     sb_printf(o, "mat 0 %d %d rand 128 %llu\n", 1 + (int)rng_below(&rg, 6), 1 + (int)rng_below(&rg, 130), (unsigned long long)(rng_u64(&rg) >> 1));
     sb_printf(o, "op window_burst 0 %d\n", 1026 + (int)rng_below(&rg, 8));
+  } else if (!strcmp(op, "large_blocks")) { /* data blocks above __M4RI_MMC_THRESHOLD (= L3 size) bypass the block cache and may take a path of their own */
+    int m = 760 + (int)rng_below(&rg, 260), n = 760 + (int)rng_below(&rg, 260);
+    sb_printf(o, "knobs 4096 32768 65536\n");
+    sb_printf(o, "mat 1 %d %d rand 128 %llu\n", m, n, (unsigned long long)(rng_u64(&rg) >> 1));
+    const char *tails[] = { "op copy 0 1\n", "op transpose 0 1\n", "op add 0 1 1\n", "op mul_m4rm 0 1 2 0\n", "op ech_m4ri 1 1 0\n", "op stack 0 1 1\n" };
+    int t = (int)rng_below(&rg, 6);
+    if (t == 3) sb_printf(o, "mat 2 %d %d rand 128 %llu\n", n, 700 + (int)rng_below(&rg, 200), (unsigned long long)(rng_u64(&rg) >> 1));
+    sb_printf(o, "%s", tails[t]);
   } else if (gen_case(&rg, op, &g, o, 0, 0) < 0) {
     sb_printf(o, "# unknown scenario\n");
   }
